@@ -75,7 +75,7 @@ var zzTCPStream = []byte{0x44, 0x01, 0x03, 'a', ':', '1', 0x00}
 // connection's acceptance never authorises the other; a repeated attempt on an
 // authenticated connection is neither re-evaluated nor revoking.
 //
-//verif:harness kind=api replay=interp unwind=200 preempt=0 bound=events<=3(quick)/4(thorough),2-connections
+//verif:harness kind=api replay=interp unwind=200 preempt=0 bound=events<=3(quick)/5(thorough),2-connections
 func ZZ_C01_NoProxyBeforeAuth() {
 	auth := &zzGateAuth{}
 	ob := &zzGateOutbound{}
@@ -87,7 +87,7 @@ func ZZ_C01_NoProxyBeforeAuth() {
 	var streams [2][]*quic.Stream
 	steps := 3
 	if verifThorough() {
-		steps = 4
+		steps = 5
 	}
 	for s := 0; s < steps; s++ {
 		k := verifChoice("conn", 2)
